@@ -106,6 +106,12 @@ func main() {
 		w := loadWorld(*repo)
 		r := newReport(*prop, *tier)
 		r.Explanation = explanations[*prop]
+		for _, a := range commonAssumptions {
+			r.Assume(a)
+		}
+		for _, a := range propertyAssumptions[*prop] {
+			r.Assume(a)
+		}
 		f(w, r)
 		cmd := fmt.Sprintf("bin/dfscheck -property %s -tier %s -repo %s", *prop, *tier, *repo)
 		return r.finish(*verif, seed, start, w, cmd)
